@@ -158,6 +158,7 @@ type Sim struct {
 	timerSeq   int64
 	deathHooks []func(*Node)
 	atEnd      []func()
+	decorators map[string]func(any) any
 	seq        int64
 	pausePts   []pausePt
 	Pauses     []PauseRec
@@ -1306,4 +1307,37 @@ func init() {
 		}
 		os.Setenv("GODEBUG", g+"randseednop=0")
 	}
+}
+
+// ---- decoration points (DESIGN.md §5 C20) ---------------------------------
+
+// SetDecorator registers fn for the decoration point name for this run: the
+// transformer rewrites configured constructor calls whose result is used at an
+// interface type into Decorate[I](name, call), so a harness can wrap the real
+// object in a recording decorator. Without a registered decorator (and outside
+// any simulation) Decorate is the identity.
+func (s *Sim) SetDecorator(name string, fn func(v any) any) {
+	if s.decorators == nil {
+		s.decorators = map[string]func(any) any{}
+	}
+	s.decorators[name] = fn
+}
+
+// Decorate is called by transformed kraken code at a decoration point.
+func Decorate[T any](name string, v T) T {
+	s := Active()
+	if s == nil || s.decorators == nil {
+		return v
+	}
+	fn := s.decorators[name]
+	if fn == nil {
+		return v
+	}
+	s.Probes["decorated:"+name]++
+	out, ok := fn(v).(T)
+	if !ok {
+		s.InfraError("decorator %s returned a value of the wrong type", name)
+		return v
+	}
+	return out
 }
